@@ -249,6 +249,17 @@ def rule_unicode(ctx, R):
     comb = len(rets) == 1 and rets[0][0] == () and (rets[0][1].startswith("RET(Option::ok_or_else(%s," % CONV) or rets[0][1].startswith("RET(Option::ok_or(%s," % CONV))
     mat = (len(rets) == 2 and rets[0][0] == ("SW[DISCR(%s)]=0" % CONV,) and rets[0][1].startswith("RET(Result::Err{")
            and rets[1] == (("SW[DISCR(%s)]=1" % CONV,), "RET(Result::Ok{SOME(%s)})" % CONV))
+    # the diagnosis names the rejected code point (the integer that failed the check), not the rational it came from
+    from .templates import templates_of
+    notes_ = []
+    for bb in [b] + fb.closures_of(b):
+        try:
+            for t in templates_of(bb, fb):
+                if "not valid unicode" in t.skeleton():
+                    notes_.append(t.types)
+        except Exception:
+            pass
+    R.check(notes_ == [["u32"]], "unicode:note_value", "the note of the encoding error prints the rejected code point (a u32): %s" % notes_, b.span)
     R.check(comb or mat, "unicode:shape", "output conversion is floor -> low limb -> checked scalar value -> the character, Error on failure: %s" % [r[1][:90] for r in rets], b.span)
     # the emitted push and every caller propagate the error
     for name in ("hyeong::core::execute::push_stack_wrap", "hyeong::app::run::run"):
